@@ -16,6 +16,7 @@ def plans(quick):
          ("v-d3", dict(depth=3, MaxDets=1, Confs={900}, Feats={1, 2}), None),
          ("v-sim7", dict(depth=7, Sim=6), {"num": 25 if quick else 400, "depth": 8}),
          ("v-sim7-mv2", dict(depth=7, Sim=6, MinVotes=2, MaxObs=3, MinTrackLen=2), {"num": 25 if quick else 300, "depth": 8}),
+         ("v-sim9-full-gallery", dict(depth=9, Sim=6, MinTrackLen=2, MaxObs=2, Slots={1}), {"num": 25 if quick else 300, "depth": 10}),
          ("v-sim7-maha", dict(depth=7, Sim=6, Metric="maha", Thr=1000, VisThr=45), {"num": 25 if quick else 300, "depth": 8})]
     if not quick:
         p += [("v-d3-2dets", dict(depth=3, MaxDets=2, **small), None),
